@@ -314,12 +314,28 @@ func ruleTransitionTable(r *Run, v *variant, states *types.Var) {
 		ast.Inspect(fd.Body, func(n ast.Node) bool {
 			if is, ok := n.(*ast.IfStmt); ok && len(is.Body.List) == 1 {
 				if b, ok := is.Body.List[0].(*ast.BranchStmt); ok && b.Tok == token.CONTINUE {
-					c := types.ExprString(is.Cond)
-					if strings.Contains(c, "id ==") || strings.Contains(c, "== id") {
-						skipsSelf = true
-					}
-					if strings.Contains(c, "!=") && strings.Contains(strings.ToLower(c), "addr") {
-						skipsOther = true
+					// `<param> ==/!= <range key>.<field>` in either order
+					if be, ok := ast.Unparen(is.Cond).(*ast.BinaryExpr); ok {
+						for _, pair := range [][2]ast.Expr{{be.X, be.Y}, {be.Y, be.X}} {
+							pid, ok := ast.Unparen(pair[0]).(*ast.Ident)
+							if !ok || !isParamOf(info, fd, pid) {
+								continue
+							}
+							sel, ok := ast.Unparen(pair[1]).(*ast.SelectorExpr)
+							if !ok {
+								continue
+							}
+							if _, ok := ast.Unparen(sel.X).(*ast.Ident); !ok {
+								continue
+							}
+							if n := namedOf(info.TypeOf(pid)); n != nil && n.Obj().Name() == "AlignedAddress" {
+								if be.Op == token.NEQ {
+									skipsOther = true
+								}
+							} else if be.Op == token.EQL {
+								skipsSelf = true
+							}
+						}
 					}
 				}
 			}
@@ -520,4 +536,20 @@ func ruleSnoopOrder(r *Run, v *variant) {
 			})
 		}
 	}
+}
+
+// isParamOf reports whether id denotes a parameter of fd.
+func isParamOf(info *types.Info, fd *ast.FuncDecl, id *ast.Ident) bool {
+	obj := info.Uses[id]
+	if obj == nil || fd.Type.Params == nil {
+		return false
+	}
+	for _, fl := range fd.Type.Params.List {
+		for _, n := range fl.Names {
+			if info.Defs[n] == obj {
+				return true
+			}
+		}
+	}
+	return false
 }
